@@ -13,6 +13,7 @@ from vf import common
 
 N = 3
 KEYS = ['a', 'b', 'c']
+REPS = 3        # representative histories explored per abstract state
 
 
 class Upstream:
@@ -24,7 +25,23 @@ class Upstream:
 
     def __call__(self, i):
         self.calls[i] += 1
-        return {'i': i, 'call': self.calls[i]}
+        return value(i, self.calls[i])
+
+
+def value(i, call):
+    """A tuple (immutable container) with mutable members: what the cache hands out must still be frozen."""
+    return ({'i': i, 'call': call}, [i, call])
+
+
+def scribble(got):
+    """After every event the harness mutates, in place, everything it was handed."""
+    for v in got:
+        if isinstance(v, tuple) and len(v) == 2 and isinstance(v[0], str):
+            v = v[1]
+        if isinstance(v, tuple) and isinstance(v[0], dict):
+            v[0]['call'] = 'MUTATED'
+            v[0]['extra'] = 1
+            v[1].append('MUTATED')
 
 
 class Memory:
@@ -65,14 +82,13 @@ class Model:
 
     def access(self, i):
         if i in self.cache:
-            return dict(self.cache[i])
+            return value(i, self.cache[i])
         self.calls[i] += 1
-        v = {'i': i, 'call': self.calls[i]}
         if not self.latched and self.low:
             self.latched = True
         if not self.latched:
-            self.cache[i] = dict(v)
-        return v
+            self.cache[i] = self.calls[i]
+        return value(i, self.calls[i])
 
     def apply(self, ev):
         """Returns the list of values the event must return."""
@@ -166,6 +182,7 @@ def run_history(hist, keep='1 KB'):
                 return (n, ev, f'raised {type(e).__name__}: {str(e)[:60]}', want), model
             if got != want:
                 return (n, ev, got, want), model
+            scribble(got)
             if dict(real.up.calls) != dict(model.calls):
                 return (n, ev, f'upstream calls {dict(real.up.calls)}', f'upstream calls {dict(model.calls)}'), model
     finally:
@@ -194,6 +211,7 @@ def closure(keep):
     st = collections.Counter()
     viols = {}
     seen = {Model().key(): []}
+    reps = collections.Counter({Model().key(): 1})
     frontier = collections.deque([[]])
     while frontier:
         hist = frontier.popleft()
@@ -209,13 +227,24 @@ def closure(keep):
             key = model.key()
             if key not in seen:
                 seen[key] = h2
+                reps[key] = 1
+                frontier.append(h2)
+            elif reps[key] < REPS and seen[key] and h2[0] != seen[key][0]:
+                # the same abstract state reached by a history that starts differently: the model says both have
+                # the same future; explore the events from this one too (differential check of the abstraction)
+                reps[key] += 1
                 frontier.append(h2)
     st['states'] = len(seen)
+    st['extra_representatives'] = sum(reps.values()) - len(seen)
     return st, viols, seen
 
 
+TREE_EVENTS = [('idx', 0), ('idx', 2), ('neg', 2), ('key', 1), ('next',), ('iter',), ('slice', 1), ('copy-idx', 1),
+               ('mem-low',), ('copy-iter',)]
+
+
 def tree(depth, keep):
-    evs = events()
+    evs = TREE_EVENTS if depth > 2 else events()
     st = collections.Counter()
     viols = {}
     for d in range(1, depth + 1):
@@ -238,7 +267,7 @@ def eager_variant():
     rng = np.random.RandomState(0)
     base = lazy_dataset.new({k: i for i, k in enumerate(KEYS)}).map(up)
     for name, ds in (('plain', base), ('one-time-shuffle', base.shuffle(False, rng=rng)),
-                     ('filter', base.filter(lambda e: e['i'] != 1))):
+                     ('filter', base.filter(lambda e: e[0]['i'] != 1))):
         snap = ds.cache(lazy=False)
         calls_after_build = dict(up.calls)
         first = list(snap)
@@ -285,9 +314,9 @@ def prefetch_same_example(res, tier):
 def run(tier):
     res = common.Result()
     total = collections.Counter()
-    tasks = [('closure', None, '1 KB'), ('closure', None, None), ('tree', 2, '1 KB')]
+    tasks = [('closure', None, '1 KB'), ('closure', None, None), ('tree', 2, '1 KB'), ('tree', 4, '1 KB')]
     if tier == 'thorough':
-        tasks.append(('tree', 3, '1 KB'))
+        tasks += [('tree', 5, '1 KB'), ('tree', 3, None)]
     samples = []
     for st, viols, sample in common.pmap(_task, tasks):
         total.update(st)
